@@ -75,6 +75,10 @@ def main():
                 mod.run(facts, chk, a.tier, only)
             except AnchorLost as e:
                 chk.anchor_lost('run', '%s:run' % p, e)
+            except Exception as e:      # fail closed
+                import traceback
+                tb = traceback.format_exc().strip().splitlines()
+                chk.anchor_lost('run', '%s:run' % p, '%s: %s @ %s' % (type(e).__name__, e, tb[-3].strip() if len(tb) >= 3 else ''))
             rc |= chk.finish()
     finally:
         if tmp and not a.keep_facts:
